@@ -64,7 +64,7 @@ def replay_load(run, cases, trace_module, trace_cfg, build_features=("json",), v
         ev = events.get(r["case"])
         run.violation(key, "case %d tags %s" % (r["case"], sorted(r["tags"])[:6]),
                       {"case": _shrink(c, 60000), "tags": sorted(r["tags"])[:50], "event": _shrink(ev), "trace_module": trace_module,
-                       "dir": os.path.join(wd, "p%05d" % r["case"])})
+                       "dir": os.path.join(wd, "p%05d" % r["case"]), "tlc": r.get("tlc")})
     if not keep_dirs:
         bad = {r["case"] for r in rejects}
         for i in range(len(cases)):
